@@ -169,6 +169,27 @@ Definition spec_step (st : store) (c : cmd) : store * res * list str :=
   | CAppend a => match decode_astring a with Some n => plain (spec_append st n) | None => bad st end
   end.
 
+(** the environment steps are no naming commands: a restart (and the login after it) changes
+    nothing; a delivery adds its message to its target folder, creating that one name if it is
+    missing (raven's documented get-or-create), and touches nothing else *)
+Definition spec_deliver (st : store) (spam : bool) : store * res :=
+  let target := if spam then S_ "Spam" else INBOX in
+  let bs := if exists_box (boxes st) target then boxes st else boxes st ++ [new_box target] in
+  match find (fun b => str_eqb (mb_name b) target) bs with
+  | None => (st, RNo)
+  | Some b =>
+      let '(b', ok) := add_link b (next_msg st) in
+      (MkStore (map (fun x => if str_eqb (mb_name x) target then b' else x) bs) (subs st) (next_msg st + 1),
+       if ok then ROk else RNo)
+  end.
+
+Definition spec_estep (st : store) (e : estep) : store * res * list str :=
+  match e with
+  | ECmd c => spec_step st c
+  | ERestart => (st, ROk, [])
+  | EDeliver spam => plain (spec_deliver st spam)
+  end.
+
 Fixpoint spec_trace (st : store) (h : list cmd) : list (store * res * list str) :=
   match h with
   | [] => []
